@@ -11,9 +11,23 @@ and/or/not, calls: the clock functions, self.<translated method>(), <dict>.get(k
 <str>.join(x), "{}{}".format(...), hashlib.<alg>(X.encode(..)).hexdigest() (an abstract hash H), len() is not
 needed; statements: docstring, return, assignment to a name, if/elif/else (join points as continuations), raise,
 pass, and the loop shape `for x in e: if test: raise E`.
+
+Added for the per-property refinement files Proofs/Src_refine_<group>.v:
+  <module-level dict of callables>[k](x)  -> environment parameter G_<name> (what the entries compute: Gen/PkceTables.v);
+  <module-level Logger>.debug/info/warning/error(constants | names) as a statement -> skipped;
+  self.<translated method>(a1..an) with exactly the callee's positional parameters;
+  <obj>.upstream_get("c1", .., "cn") -> PyOps.py_call_env (environment function carried by the injected object);
+  [elt for x in e if test..] -> py_listcomp; list literals; list(x), len(x), d.items(), d.keys(), s.split(sep);
+  `x is True/False`; "..{}..{}..".format(..) with bare placeholders and literal text;
+  general `for x in e:` / `for a, b in e:` with continue / break / return and at most ONE carried variable -> py_for;
+  `x.append(e)` on a list created by `x = [..]` in the function and never aliased (x = x + [e]);
+  random draws: `x = rndstr(..)` -> py_draw on the supply parameter `draws`; `while test: x = rndstr(..)` (no bound in
+  the source) -> py_redraw, recursion on the supply; a draw inside a conditional must be the last one.
+Source identifiers that would capture a name of the emitted Gallina are refused.
 """
 import ast
 import importlib
+import re
 import inspect
 import os
 import sys
@@ -34,6 +48,16 @@ EXC = {"ValueError": "ValueError", "KeyError": "KeyError", "TypeError": "TypeErr
        "IndexError": "IndexError"}
 
 
+COQ_RESERVED = {"fst", "snd", "nth", "bind", "Ok", "Err", "Unmodelled", "clock", "draws", "H", "PS", "tt", "unit", "true", "false",
+                "inl", "inr", "match", "end", "fun", "let", "then", "fix", "forall", "exists", "Type", "Prop", "Set", "at",
+                "VNone", "VBool", "VInt", "VStr", "VList", "VDict", "VObj", "LNext", "LBreak", "LReturn", "st_", "Z", "N",
+                "ValueError", "KeyError", "TypeError", "AttributeError", "IndexError", "pyval", "res", "list", "using"}
+# module-level functions whose every call is a fresh random draw: successive results are the list parameter `draws`
+DRAW_CALLS = {"rndstr"}
+# attribute names that denote an environment function of the object (never a method of a built-in type)
+ENV_CALLS = {"upstream_get"}
+
+
 class T:
     def __init__(self, func, methods, clock_calls=("utc_time_sans_frac", "time_sans_frac")):
         self.func = func
@@ -42,10 +66,26 @@ class T:
         self.globals = getattr(func, "__globals__", {})
         self.n = 0
         self.bound = set()
+        self.extra = {}                 # environment parameters of the translation: coq name -> coq type
+        self.fresh_lists = set()        # names bound by `x = [..]` in this function and never aliased: x.append(e) is x = x + [e]
+        self.cursor = 0                 # random draws consumed so far (the supply is the parameter `draws`)
+        self.cursor_dead = False        # a draw happened inside a conditional: no draw may follow it
+        self.loop = None                # inside the body of a general for loop: the name of the carried variable
 
     def fresh(self):
         self.n += 1
         return "t%d" % self.n
+
+    def sibling(self, name):
+        """FunctionDef of another method of the class this method is defined in"""
+        cls = self.globals.get(self.func.__qualname__.split(".")[0])
+        m = inspect.unwrap(getattr(cls, name)) if cls is not None and hasattr(cls, name) else None
+        if m is None or not inspect.isfunction(m):
+            raise Unsupported("self.%s is not a plain method of %s" % (name, self.func.__qualname__.split(".")[0]))
+        fd = ast.parse(textwrap.dedent(inspect.getsource(m))).body[0]
+        if not isinstance(fd, ast.FunctionDef) or fd.decorator_list:
+            raise Unsupported("self.%s is decorated" % name)
+        return fd
 
     def bind2(self, l, r, fmt):
         a, b = self.fresh(), self.fresh()
@@ -87,6 +127,12 @@ class T:
             return "Ok (VInt (-%d))" % e.operand.value
         if isinstance(e, ast.Compare) and len(e.ops) == 1:
             op, l, rnode = e.ops[0], self.expr(e.left), e.comparators[0]
+            if isinstance(op, (ast.Is, ast.IsNot)) and isinstance(rnode, ast.Constant) and (rnode.value is True or rnode.value is False):
+                a, b = self.fresh(), self.fresh()
+                tst = "py_is_bool %s %s" % (a, str(rnode.value).lower())
+                if isinstance(op, ast.Is):
+                    return "(%s <- %s ;; %s)" % (a, l, tst)
+                return "(%s <- %s ;; %s <- %s ;; py_not %s)" % (a, l, b, tst, b)
             if isinstance(op, (ast.Is, ast.IsNot)):
                 if not (isinstance(rnode, ast.Constant) and rnode.value is None):
                     raise Unsupported("is <non-None>")
@@ -116,16 +162,84 @@ class T:
             return acc
         if isinstance(e, ast.Call):
             return self.call(e)
+        if isinstance(e, ast.List) and not any(isinstance(x, ast.Starred) for x in e.elts):
+            names, binds = [], ""
+            for x in e.elts:
+                a = self.fresh()
+                binds += "%s <- %s ;; " % (a, self.expr(x))
+                names.append(a)
+            return "(%sOk (VList [%s]))" % (binds, "; ".join(names))
+        if isinstance(e, ast.ListComp):
+            # [elt for x in e (if test)*]
+            if len(e.generators) != 1:
+                raise Unsupported("nested comprehension")
+            g = e.generators[0]
+            if not isinstance(g.target, ast.Name) or g.is_async:
+                raise Unsupported("comprehension target")
+            it, xs, r = self.fresh(), self.fresh(), self.fresh()
+            src = self.expr(g.iter)
+            x = g.target.id
+            saved = set(self.bound)
+            self.bound.add(x)
+            test = self.expr(ast.BoolOp(op=ast.And(), values=list(g.ifs))) if len(g.ifs) > 1 else (
+                self.expr(g.ifs[0]) if g.ifs else "Ok (VBool true)")
+            elt = self.expr(e.elt)
+            self.bound = saved
+            return "(%s <- %s ;; %s <- py_iter %s ;; %s <- py_listcomp %s (fun %s => %s) (fun %s => %s) ;; Ok (VList %s))" % (
+                it, src, xs, it, r, xs, x, test, x, elt, r)
         raise Unsupported(ast.dump(e)[:80])
 
     def call(self, e):
         f = e.func
         if isinstance(f, ast.Name) and f.id in self.clock_calls and not e.args:
             return "Ok clock"
+        # <module-level dict of callables>[k](x): the table is an environment parameter G_<name> k x (what each entry
+        # computes is not read here: for CC_METHOD it is classified behaviourally by gen_tables.py -> Gen/PkceTables.v)
+        if isinstance(f, ast.Subscript) and isinstance(f.value, ast.Name) and f.value.id not in self.bound \
+                and len(e.args) == 1 and not e.keywords and not isinstance(f.slice, ast.Slice):
+            g = self.globals.get(f.value.id)
+            if isinstance(g, dict) and g and all(isinstance(k, str) and callable(v) for k, v in g.items()):
+                nm = "G_" + f.value.id
+                self.extra[nm] = "pyval -> pyval -> res pyval"
+                return self.bind2(self.expr(f.slice), self.expr(e.args[0]), nm + " %s %s")
+            raise Unsupported("call through %s, which is not a module-level dict of callables" % f.value.id)
+        if isinstance(f, ast.Name) and f.id == "list" and "list" not in self.bound and "list" not in self.globals \
+                and len(e.args) == 1 and not e.keywords:
+            a = self.fresh()
+            return "(%s <- %s ;; py_list %s)" % (a, self.expr(e.args[0]), a)
+        if isinstance(f, ast.Name) and f.id == "len" and "len" not in self.bound and "len" not in self.globals \
+                and len(e.args) == 1 and not e.keywords:
+            a = self.fresh()
+            return "(%s <- %s ;; py_len %s)" % (a, self.expr(e.args[0]), a)
+        if isinstance(f, ast.Attribute) and f.attr == "split" and len(e.args) == 1 and not e.keywords:
+            return self.bind2(self.expr(f.value), self.expr(e.args[0]), "py_split %s %s")
+        if isinstance(f, ast.Attribute) and f.attr in ("items", "keys") and not e.args and not e.keywords:
+            a = self.fresh()
+            return "(%s <- %s ;; py_%s %s)" % (a, self.expr(f.value), f.attr, a)
         if isinstance(f, ast.Attribute):
             # self.method()
-            if isinstance(f.value, ast.Name) and f.value.id == "self" and f.attr in self.methods and not e.args:
+            if isinstance(f.value, ast.Name) and f.value.id == "self" and f.attr in self.methods and not e.args and not e.keywords:
                 return "%s self clock" % self.methods[f.attr]
+            # self.<translated method>(a1, .., an): positional arguments only, exactly the callee's parameters
+            if isinstance(f.value, ast.Name) and f.value.id == "self" and f.attr in self.methods and not e.keywords:
+                callee = self.sibling(f.attr)
+                cargs = callee.args
+                if cargs.vararg or cargs.kwonlyargs or cargs.kwarg or len(cargs.args) - 1 != len(e.args) \
+                        or any(isinstance(a, ast.Starred) for a in e.args):
+                    raise Unsupported("call of self.%s with other than exactly its positional parameters" % f.attr)
+                names, binds = [], ""
+                for x in e.args:
+                    a = self.fresh()
+                    binds += "%s <- %s ;; " % (a, self.expr(x))
+                    names.append(a)
+                return "(%s%s self %s clock)" % (binds, self.methods[f.attr], " ".join(names))
+            # <obj>.<environment function>("c1", .., "cn"): the injected object carries the function's graph on the
+            # constant arguments the code passes (PyOps.py_call_env)
+            if f.attr in ENV_CALLS and e.args and not e.keywords \
+                    and all(isinstance(a, ast.Constant) and isinstance(a.value, str) for a in e.args):
+                a = self.fresh()
+                return "(%s <- %s ;; py_call_env %s %s [%s])" % (a, self.expr(f.value), a, coqstr(f.attr),
+                                                                 "; ".join(coqstr(x.value) for x in e.args))
             if f.attr == "get" and len(e.args) in (1, 2) and not e.keywords:
                 a, b, c = self.fresh(), self.fresh(), self.fresh()
                 d = self.expr(e.args[1]) if len(e.args) == 2 else "Ok VNone"
@@ -135,14 +249,30 @@ class T:
             if f.attr == "join" and len(e.args) == 1:
                 return self.bind2(self.expr(f.value), self.expr(e.args[0]), "py_join %s %s")
             if f.attr == "format" and isinstance(f.value, ast.Constant) and isinstance(f.value.value, str) \
-                    and f.value.value == "{}" * len(e.args) and e.args and not e.keywords:
+                    and e.args and not e.keywords and not any(isinstance(x, ast.Starred) for x in e.args):
+                # only bare `{}` placeholders, as many as arguments; literal text between them is kept
+                import string
+                try:
+                    segs = list(string.Formatter().parse(f.value.value))
+                except ValueError as ex:
+                    raise Unsupported("format string: %s" % ex)
+                fields = [sg for sg in segs if sg[1] is not None]
+                if len(fields) != len(e.args) or any(sg[1] != "" or sg[2] != "" or sg[3] is not None for sg in fields):
+                    raise Unsupported("format string %r" % f.value.value)
                 names, binds = [], ""
                 for x in e.args:
                     a = self.fresh()
                     binds += "%s <- %s ;; " % (a, self.expr(x))
                     names.append(a)
+                parts, i = [], 0
+                for lit, fld, _, _ in segs:
+                    if lit:
+                        parts.append("VStr %s" % coqstr(lit))
+                    if fld is not None:
+                        parts.append(names[i])
+                        i += 1
                 s = self.fresh()
-                return "(%s%s <- py_format_concat [%s] ;; Ok (VStr %s))" % (binds, s, "; ".join(names), s)
+                return "(%s%s <- py_format_concat [%s] ;; Ok (VStr %s))" % (binds, s, "; ".join(parts), s)
             # hashlib.<alg>(X.encode(...)).hexdigest()  ->  the abstract hash H applied to X
             if f.attr == "hexdigest" and not e.args and isinstance(f.value, ast.Call):
                 h = f.value
@@ -153,8 +283,85 @@ class T:
                         if isinstance(inner, ast.Tuple) or isinstance(inner, ast.BinOp):
                             raise Unsupported("hash argument shape")
                         a, s = self.fresh(), self.fresh()
+                        self.extra["H"] = "pystr -> pystr -> pystr"
                         return "(%s <- %s ;; %s <- py_str %s ;; Ok (VStr (H %s %s)))" % (a, self.expr(inner), s, a, coqstr(h.func.attr), s)
         raise Unsupported("call " + ast.dump(e)[:90])
+
+    def is_draw(self, e):
+        return (isinstance(e, ast.Call) and isinstance(e.func, ast.Name) and e.func.id in DRAW_CALLS
+                and e.func.id not in self.bound and callable(self.globals.get(e.func.id)) and not e.keywords
+                and all(isinstance(a, ast.Constant) or (isinstance(a, ast.Name) and a.id in self.bound) for a in e.args))
+
+    def draws_now(self, advance=True):
+        if self.cursor_dead or self.loop is not None:
+            raise Unsupported("random draw after a conditional draw or inside a loop body")
+        self.extra["draws"] = "list pyval"
+        cur = "draws" if self.cursor == 0 else "draws%d" % self.cursor
+        self.cursor += 1
+        return cur, "draws%d" % self.cursor
+
+    def for_general(self, s, rest, k):
+        """for x in e: <body> / for a, b in e: <body>   with continue, break, return, raise in the body and at most ONE
+        variable carried from one iteration to the next (assigned in the body, bound before the loop).
+        -> PyOps.py_for: the body maps (element, carried value) to LNext / LBreak / LReturn."""
+        if s.orelse:
+            raise Unsupported("for ... else")
+        if self.loop is not None:
+            raise Unsupported("nested loop")
+        for n in ast.walk(s):
+            if n is not s and isinstance(n, (ast.For, ast.While, ast.AsyncFor)):
+                raise Unsupported("nested loop")
+        if isinstance(s.target, ast.Name):
+            names = [s.target.id]
+        elif isinstance(s.target, ast.Tuple) and all(isinstance(t, ast.Name) for t in s.target.elts):
+            names = [t.id for t in s.target.elts]
+        else:
+            raise Unsupported("loop target")
+        if len(set(names)) != len(names) or set(names) & self.bound:
+            raise Unsupported("loop target re-uses a bound name")
+        assigned = {t.id for st in s.body for n in ast.walk(st) if isinstance(n, ast.Assign) for t in n.targets if isinstance(t, ast.Name)}
+        assigned |= {n.func.value.id for st in s.body for n in ast.walk(st) if self.is_append(n)}
+        if assigned & set(names):
+            raise Unsupported("loop target assigned in the body")
+        later = {n.id for st in rest for n in ast.walk(st) if isinstance(n, ast.Name)}
+        leaked = sorted(v for v in (assigned | set(names)) if v not in self.bound and v in later)
+        if leaked:
+            raise Unsupported("name %s first bound inside a loop and used after it" % leaked)
+        carried = sorted(v for v in assigned if v in self.bound)
+        if len(carried) > 1:
+            raise Unsupported("several variables carried through a loop")
+        st = carried[0] if carried else "st_"
+        it, xs, x, r, l, v = self.fresh(), self.fresh(), self.fresh(), self.fresh(), self.fresh(), self.fresh()
+        iter_expr = self.expr(s.iter)
+        saved = set(self.bound)
+        self.bound |= set(names)
+        self.loop = st
+        body = self.block(s.body, "Ok (LNext %s)" % st)
+        self.loop = None
+        self.bound = saved
+        if len(names) == 1 and isinstance(s.target, ast.Name):
+            fn = "fun %s %s => %s" % (names[0], st, body)
+        else:
+            lets = "".join("let %s := nth %d %s VNone in " % (nm, i, l) for i, nm in enumerate(names))
+            fn = "fun %s %s => (%s <- py_unpack %s %d ;; %s%s)" % (x, st, l, x, len(names), lets, body)
+        cont = self.block(rest, k)
+        return "(%s <- %s ;; %s <- py_iter %s ;; %s <- py_for %s (%s) %s ;;\n match %s with inl %s => %s | inr %s => Ok %s end)" % (
+            it, iter_expr, xs, it, r, xs, fn, st if carried else "VNone", r, st, cont, v, v)
+
+    def is_append(self, e):
+        return (isinstance(e, ast.Call) and isinstance(e.func, ast.Attribute) and e.func.attr == "append"
+                and isinstance(e.func.value, ast.Name) and e.func.value.id in self.fresh_lists
+                and e.func.value.id in self.bound and len(e.args) == 1 and not e.keywords
+                and not isinstance(e.args[0], ast.Starred))
+
+    def is_log_call(self, e):
+        """<module-level logging.Logger>.debug/info/warning/error(<constants or bound names>): no effect on the result
+        (the logging module swallows formatting errors); anything else in statement position is unsupported"""
+        import logging
+        return (isinstance(e, ast.Call) and isinstance(e.func, ast.Attribute) and isinstance(e.func.value, ast.Name)
+                and e.func.value.id not in self.bound and isinstance(self.globals.get(e.func.value.id), logging.Logger)
+                and e.func.attr in ("debug", "info", "warning", "error") and not e.keywords
+                and all(isinstance(a, ast.Constant) or (isinstance(a, ast.Name) and a.id in self.bound) for a in e.args))
 
     # statement list -> coq term (res pyval); falling off the end returns None
     def block(self, stmts, k="Ok VNone"):
@@ -165,16 +372,55 @@ class T:
             return self.block(rest, k)      # docstring
         if isinstance(s, ast.Pass):
             return self.block(rest, k)
+        if isinstance(s, ast.Expr) and self.is_log_call(s.value):
+            return self.block(rest, k)
         if isinstance(s, ast.Return):
-            return self.expr(s.value) if s.value is not None else "Ok VNone"
+            val = self.expr(s.value) if s.value is not None else "Ok VNone"
+            if self.loop is not None:
+                a = self.fresh()
+                return "(%s <- %s ;; Ok (LReturn %s))" % (a, val, a)
+            return val
+        if isinstance(s, (ast.Continue, ast.Break)):
+            if self.loop is None:
+                raise Unsupported("continue/break outside a translated loop")
+            return "Ok (%s %s)" % ("LNext" if isinstance(s, ast.Continue) else "LBreak", self.loop)
         if isinstance(s, ast.Raise):
             exc = s.exc
             name = exc.func.id if isinstance(exc, ast.Call) and isinstance(exc.func, ast.Name) else (exc.id if isinstance(exc, ast.Name) else None)
             if name not in EXC:
                 raise Unsupported("raise %s" % name)
             return "Err %s" % EXC[name]
+        if isinstance(s, ast.Expr) and self.is_append(s.value):
+            # x.append(e) on a list created in this function and never aliased:  x = x + [e]
+            x = s.value.func.value.id
+            a = self.fresh()
+            return "(%s <- %s ;; %s <- py_append %s %s ;;\n %s)" % (a, self.expr(s.value.args[0]), x, x, a, self.block(rest, k))
+        if isinstance(s, ast.Assign) and len(s.targets) == 1 and isinstance(s.targets[0], ast.Name) and self.is_draw(s.value):
+            # x = rndstr(..): the next element of the supply
+            cur, nxt = self.draws_now()
+            x, p = s.targets[0].id, self.fresh()
+            self.bound.add(x)
+            self.fresh_lists.discard(x)
+            return "(%s <- py_draw %s ;; let %s := fst %s in let %s := snd %s in\n %s)" % (p, cur, x, p, nxt, p, self.block(rest, k))
+        if isinstance(s, ast.While):
+            # while test(x): x = rndstr(..)   — no bound in the source; the translation recurses on the supply
+            if (not s.orelse and len(s.body) == 1 and isinstance(s.body[0], ast.Assign) and len(s.body[0].targets) == 1
+                    and isinstance(s.body[0].targets[0], ast.Name) and s.body[0].targets[0].id in self.bound
+                    and self.is_draw(s.body[0].value)):
+                x, p = s.body[0].targets[0].id, self.fresh()
+                test = self.expr(s.test)
+                cur, nxt = self.draws_now()
+                return "(%s <- py_redraw (fun %s => %s) %s %s ;; let %s := fst %s in let %s := snd %s in\n %s)" % (
+                    p, x, test, x, cur, x, p, nxt, p, self.block(rest, k))
+            raise Unsupported("while loop shape")
         if isinstance(s, ast.Assign) and len(s.targets) == 1 and isinstance(s.targets[0], ast.Name):
             rhs = self.expr(s.value)
+            if isinstance(s.value, ast.Name):
+                self.fresh_lists.discard(s.value.id)          # alias
+            if isinstance(s.value, ast.List) and self.loop is None:
+                self.fresh_lists.add(s.targets[0].id)
+            else:
+                self.fresh_lists.discard(s.targets[0].id)
             self.bound.add(s.targets[0].id)
             return "(%s <- %s ;;\n %s)" % (s.targets[0].id, rhs, self.block(rest, k))
         if isinstance(s, ast.For):
@@ -191,7 +437,7 @@ class T:
                 xs = self.fresh()
                 return "(%s <- %s ;; %s <- py_iter %s ;; _ <- py_for_raise %s (fun %s => %s) %s ;;\n %s)" % (
                     it, self.expr(s.iter), xs, it, xs, x, test, exc[len("Err "):], self.block(rest, k))
-            raise Unsupported("for loop shape")
+            return self.for_general(s, rest, k)
         if isinstance(s, ast.If):
             c = self.fresh()
             test = self.expr(s.test)
@@ -207,18 +453,25 @@ class T:
             saved = set(self.bound)
             self.n += 1
             kn = "k%d" % self.n
+            cur0 = self.cursor
             if join:
                 v = join[0]
                 body = self.block(s.body, "%s %s" % (kn, v))
                 self.bound = set(saved)
+                cur1, self.cursor = self.cursor, cur0
                 orelse = self.block(s.orelse, "%s %s" % (kn, v))
                 self.bound = set(saved)
+                if cur1 != cur0 or self.cursor != cur0:
+                    self.cursor_dead = True
                 cont = self.block(rest, k)
                 return "(let %s := (fun %s => %s) in\n %s <- %s ;;\n if py_truthy %s then %s else %s)" % (kn, v, cont, c, test, c, body, orelse)
             body = self.block(s.body, "%s tt" % kn)
             self.bound = set(saved)
+            cur1, self.cursor = self.cursor, cur0
             orelse = self.block(s.orelse, "%s tt" % kn)
             self.bound = set(saved)
+            if cur1 != cur0 or self.cursor != cur0:
+                self.cursor_dead = True
             cont = self.block(rest, k)
             return "(let %s := (fun _ : unit => %s) in\n %s <- %s ;;\n if py_truthy %s then %s else %s)" % (kn, cont, c, test, c, body, orelse)
         raise Unsupported(ast.dump(s)[:80])
@@ -241,11 +494,14 @@ def translate(func, coqname, methods, varargs_as_list=True):
         if isinstance(n, ast.Name) and n.id in ignored:
             raise Unsupported("reads **%s" % n.id)
     t.bound = set(params)
+    # identifiers of the source become Gallina binders: none may capture a name the emitted code itself uses
+    for ident in set(params) | {n.id for n in ast.walk(fd) if isinstance(n, ast.Name) and isinstance(n.ctx, ast.Store)}:
+        if ident in COQ_RESERVED or re.match(r"^(t|k|draws)\d+$|^(py_|G_)", ident):
+            raise Unsupported("identifier %s collides with a name of the emitted Gallina" % ident)
     body = t.block(fd.body)
-    uses_h = "(H " in body
     args = " ".join("(%s : pyval)" % p for p in params)
-    hdr = "Definition %s %s%s (clock : pyval) : res pyval :=\n %s.\n" % (
-        coqname, "(H : pystr -> pystr -> pystr) " if uses_h else "", args, body)
+    extra = "".join("(%s : %s) " % (n, t.extra[n]) for n in sorted(t.extra))
+    hdr = "Definition %s %s%s (clock : pyval) : res pyval :=\n %s.\n" % (coqname, extra, args, body)
     return hdr
 
 
@@ -257,8 +513,15 @@ TARGETS = [
     ("Src_token", "is_expired_src", "idpyoidc.server.token:is_expired", {}),
     ("Src_token", "valid_client_secret_src", "idpyoidc.server.client_authn:valid_client_secret", {}),
     ("Src_db", "branch_key_src", "idpyoidc.server.session.database:Database.branch_key", {}),
+    ("Src_db", "unpack_branch_key_src", "idpyoidc.server.session.database:Database.unpack_branch_key", {}),
+    ("Src_db", "lv_pack_src", "idpyoidc.server.util:lv_pack", {}),
     ("Src_sub", "public_id_src", "idpyoidc.server.session.manager:public_id", {}),
     ("Src_sub", "pairwise_id_src", "idpyoidc.server.session.manager:pairwise_id", {}),
+    ("Src_scopes", "Scopes_get_allowed_scopes_src", "idpyoidc.server.scopes:Scopes.get_allowed_scopes", {}),
+    ("Src_scopes", "Scopes_filter_scopes_src", "idpyoidc.server.scopes:Scopes.filter_scopes", {"get_allowed_scopes": "Scopes_get_allowed_scopes_src"}),
+    ("Src_claims", "claims_match_src", "idpyoidc.server.session.claims:claims_match", {}),
+    ("Src_reg", "random_client_id_src", "idpyoidc.server.oidc.registration:random_client_id", {}),
+    ("Src_pkce", "verify_code_challenge_src", "idpyoidc.server.oauth2.add_on.pkce:verify_code_challenge", {}),
 ]
 
 
